@@ -224,6 +224,12 @@ def vwap_tie(c):
         rem -= t
         if b and common.is_tie2(a / b):
             return True
+    if c.get("full") and rem > 0:
+        # a force-matching client fills what is left at the order's own price: one more term of the average
+        a += frac(c["price"]) * rem
+        b += rem
+        if common.is_tie2(a / b):
+            return True
     return False
 
 
